@@ -229,7 +229,8 @@ def aq_header(spec, c):
         yyjjj(end_times(spec)[-1][0]), float(end_times(spec)[-1][1]))
     r2 = struct.pack('>ffiffffiiiiifff', h['plon'], h['plat'], h['iutm'],
                      h['xorg'], h['yorg'], h['delx'], h['dely'], spec['nx'],
-                     spec['ny'], spec['nz'], h['iproj'], h['istag'],
+                     spec['ny'], spec.get('hdr_nz', spec['nz']), h['iproj'],
+                     h['istag'],
                      h['tlat1'], h['tlat2'], 0.0)
     r3 = struct.pack('>iiii', 1, 1, spec['nx'], spec['ny'])
     r4 = b''.join(a4(n, 10) for n in spec['names'])
